@@ -197,7 +197,7 @@ def run_impl(p):
                 if k == "getvec":
                     return [_num(x) for x in t[qarr(o["ks"])]] if o["ks"] else [_num(x) for x in t[np.array([], dtype=kd)]]
                 if k == "get1":
-                    r = t[int(o["k"])]
+                    r = t[int(o["k"]) if len(trace) % 2 == 0 else kd.type(o["k"])]      # a Python int / a numpy scalar of the key dtype
                     return [_num(x) for x in np.atleast_1d(r)]
                 if k == "setscalar":
                     t[qarr(o["ks"])] = o["x"]; return True
